@@ -80,6 +80,17 @@ func c05Sources() []srcVariant {
 			s := &space.Decl{Pkg: "in", Name: "S" + id, Under: space.St(f("B", tStr), f("Name", tStr), f("N", space.P(space.N(n))))}
 			return s, []*space.Decl{n}
 		}},
+		// two sub-structs of ONE named type: autoMap of both makes every field of that type ambiguous
+		srcVariant{"two-substructs-same-type", func(id string) (*space.Decl, []*space.Decl) {
+			n := &space.Decl{Pkg: "in", Name: "N" + id, Under: space.St(f("A", tInt))}
+			s := &space.Decl{Pkg: "in", Name: "S" + id, Under: space.St(f("B", tStr), f("Name", tStr), f("N", space.N(n)), f("N2", space.N(n)))}
+			return s, []*space.Decl{n}
+		}},
+		srcVariant{"two-substructs-same-type-ptr", func(id string) (*space.Decl, []*space.Decl) {
+			n := &space.Decl{Pkg: "in", Name: "N" + id, Under: space.St(f("A", tInt))}
+			s := &space.Decl{Pkg: "in", Name: "S" + id, Under: space.St(f("B", tStr), f("Name", tStr), f("N", space.P(space.N(n))), f("N2", space.N(n)))}
+			return s, []*space.Decl{n}
+		}},
 		mk("dropped", f("B", tStr), f("Name", tStr)),
 		method("method", false, false),
 		method("method-ptr-recv", true, false),
@@ -137,7 +148,7 @@ func c05Targets() []tgtVariant {
 var c05Menu = []string{
 	"map A2 A", "map NAME Name", "map N.A A", "map N.M.A A", "map Hidden A",
 	"ignore A", "ignore D", "ignore x", "ignore Nope",
-	"autoMap N", "autoMap N.M", "autoMap Nope",
+	"autoMap N", "autoMap N.M", "autoMap Nope", "autoMap N2",
 	"matchIgnoreCase", "ignoreMissing", "ignoreUnexported",
 	"map Nope A", "map B.X A", "map B A",
 	"map N.a A", "map N.M.a A", "map N.m.Other A", "map N.Other A",
